@@ -84,13 +84,6 @@ func ruleShareGuarded() check.Rule {
 							muHeld = true
 						}
 					}
-					if !muHeld && !a.write && underCreatedFlag(m, sc, a.node) {
-						// the goroutine that installed this connection under the mutex reads its own value
-						// back before the source is subscribed: no reset of that connection can run yet
-						// (its reference count is >= 1 and its source has not been subscribed)
-						c.Inc("share_creator_reads", 1)
-						continue
-					}
 					if !muHeld {
 						bad = true
 						c.Violation(key, a.node.Pos(), "%s of %s without the Share mutex (held: %s): a concurrent subscribe/unsubscribe/reset can observe or install a stale connection", rw(a), v.Name(), a.held)
@@ -505,40 +498,4 @@ func C13() *check.Property {
 		Floors:      map[string]int{"safe_types": 9, "field_accesses": 200, "safe_scs": 25, "shared_variables": 40, "functions_with_locks": 40, "multi_producer_scs": 20},
 		Controls:    map[string]string{"zz_verif_controls_c13.go": roControl(controlsC13), "zz_verif_controls_c07.go": roControl(controlsC07), "zz_verif_controls_c02.go": roControl(controlsC02)},
 	}
-}
-
-// underCreatedFlag: n lies in the body of `if <flag>` where flag is the sound 'created' result
-// of the get-or-create closure (true only on the path that installed a new connection).
-func underCreatedFlag(m *model.Model, sc *model.SC, n ast.Node) bool {
-	info := sc.Pkg.TypesInfo
-	for cn := n; cn != nil; cn = m.Parent(sc.Pkg, cn) {
-		ifs, isIf := m.Parent(sc.Pkg, cn).(*ast.IfStmt)
-		if !isIf || cn != ast.Node(ifs.Body) {
-			continue
-		}
-		id, isID := ast.Unparen(ifs.Cond).(*ast.Ident)
-		if !isID {
-			continue
-		}
-		for _, d := range m.Defs[objOf(info, id)] {
-			as, isAs := d.Node.(*ast.AssignStmt)
-			if !isAs || len(as.Rhs) != 1 {
-				continue
-			}
-			call, isCall := ast.Unparen(as.Rhs[0]).(*ast.CallExpr)
-			if !isCall {
-				continue
-			}
-			fid, isID := ast.Unparen(call.Fun).(*ast.Ident)
-			if !isID {
-				continue
-			}
-			for _, fd := range m.Defs[objOf(info, fid)] {
-				if lit, isLit := ast.Unparen(fd.Expr).(*ast.FuncLit); isLit && createdFlagSound(info, lit) {
-					return true
-				}
-			}
-		}
-	}
-	return false
 }
